@@ -90,6 +90,28 @@ def effects_in(fnode, nested=False):
     return out
 
 
+def aug_name_effects(fnode):
+    """``x op= v`` on a plain local (kind 'aug').  Not a heap effect by itself -- ``effects_in`` leaves it out -- but an
+    in-place mutation of whatever container ``x`` is an alias of (``ms = route.methods; ms |= more``): rules resolve the
+    local through ``Flow`` and judge the object it stands for."""
+    return [Effect('aug', n.target, n) for n in walk_body(fnode) if isinstance(n, ast.AugAssign) and isinstance(n.target, ast.Name)]
+
+
+def aug_in_place(node):
+    """An augmented assignment that may update a container in place: there is no evidence that the operand is an
+    immutable number / string (``n += 1``, ``msg += ' ...'``, ``msg += '%s' % x`` re-bind the target instead)."""
+    v = node.value
+    if isinstance(v, ast.Constant) and isinstance(v.value, (int, float, complex, str, bytes)):
+        return False
+    if isinstance(v, ast.JoinedStr):
+        return False
+    if isinstance(v, ast.BinOp) and isinstance(v.op, ast.Mod) and isinstance(v.left, ast.Constant) and isinstance(v.left.value, (str, bytes)):
+        return False
+    if isinstance(v, ast.Call) and isinstance(v.func, ast.Name) and v.func.id in ('str', 'int', 'float', 'len', 'repr', 'bytes'):
+        return False
+    return True
+
+
 FRESH_CALLS = {'dict', 'list', 'set', 'tuple', 'frozenset', 'defaultdict', 'OrderedDict', 'deque', 'sorted', 'reversed',
                'zip', 'map', 'filter', 'str', 'bytes', 'int', 'float', 'object', 'type', 'iter', 'enumerate', 'range'}
 
